@@ -3,11 +3,14 @@
 
 use std::borrow::Cow;
 use std::collections::hash_map::Iter as HashMapIter;
+#[cfg(not(purl_verif))]
 use std::collections::HashMap;
 use std::ops::Deref;
 
 use hex::{FromHex, ToHex};
 
+#[cfg(purl_verif)]
+use crate::verif_hooks::HashMap;
 use crate::{copy_as_lowercase, ParseError, SmallString};
 
 pub mod gem;
